@@ -686,6 +686,14 @@ pub fn sweep(ctx: &Ctx, plan: &SweepPlan, rep: &mut Report, checker: &Checker) -
         spaces.push(Box::new(ListSpace { label: "E4.dictionary".into(), items: dictionary_inputs(&words),
             what: format!("{} real-world words (mc/data/words.txt + CLDR languages/scripts/regions) x 22 syntactic positions x 3 letter cases", words.len()) }));
     }
+    // valid UTF-8 with multi-byte characters: the only strings with non-ASCII content that
+    // reach the &str entry points
+    spaces.push(Box::new(ListSpace { label: "E4.utf8".into(), items: utf8_strings(if ctx.quick() { 5 } else { 6 }),
+        what: "every string of 1..=5 [6] characters over an 11-character alphabet with 2/3/4-byte and case-mapping-hazard characters; a multi-byte character inserted at / replacing every byte offset of 7 base texts up to 100 bytes, and the prefixes ending there".into() }));
+    // order hazards: subtag lists on which the lexicographic order differs from the integer,
+    // length-first and reversed orders
+    spaces.push(Box::new(ListSpace { label: "E4.order".into(), items: order_inputs(),
+        what: "every ordered pair and triple of 6 variants on which lexicographic, little-endian-integer and length-first order all differ (plus 4 registered pairs), in 7 syntactic contexts; every triple of 5 such words as attributes, keyword values, tfield values and private tags".into() }));
     let mut tree_inputs = 0u64;
     let mut tree_nontrivial = 0u64;
     for sp in &spaces {
